@@ -865,6 +865,14 @@ pub fn run(tier: Tier, seed: u64, known: &Known) -> PropRun {
 }
 
 pub fn replay(part: &str, bytes: &[u8], case: &Value, stats: &mut Stats) -> Verdict {
+    // a case of the part 'veteran' is its whole history of heavy searches: replayed from its bytes,
+    // as many rounds as the failing run had made
+    if let Some(h) = case.get("engine_had_searched_before").and_then(|x| x.as_array()) {
+        if !bytes.is_empty() {
+            VETERAN_ROUNDS.with(|c| c.set(h.len().max(1)));
+            return part_veteran(bytes, stats);
+        }
+    }
     if let Some(cmds) = case.get("commands").and_then(|x| x.as_array()) {
         let cmds: Vec<String> = cmds.iter().filter_map(|c| c.as_str().map(|s| s.to_string())).collect();
         if let Some(last) = cmds.last() {
